@@ -76,6 +76,20 @@ Theorem c08_outdoor_homogeneous : forall pw c g k m,
 Proof. exact production_homogeneous. Qed.
 Print Assumptions c08_outdoor_homogeneous.
 
+(* ---- greenhouse crops: one value per month; mean monthly yield per hectare x climate ratio (relocated) x
+   (1 + greenhouse gain) x distribution and retail waste x greenhouse area of the month (C09) *)
+Theorem c08_greenhouse : forall pw c g, (gadd g = true -> 42 <= cN c)%nat ->
+  List.length (greenhouse_kcals pw c g) = cN c /\
+  (forall m, gadd g = true -> ~ gfrac g == 0 -> (m < cN c)%nat ->
+   nthq (greenhouse_kcals pw c g) m ==
+   (1 - cwd c / 100) * (1 - cwr c / 100) * (qsum (months_cycle c) / 12 / total_crop_area g
+      * relocated pw (eff_exp c) (nthq (reductions c) m)) * (1 + ggain g / 100) * nthq (greenhouse_area (cN c) g) m).
+Proof.
+  intros pw c g H. split; [apply greenhouse_kcals_length; exact H|].
+  intros m Hg Hf Hm. apply greenhouse_kcals_nth; try assumption. apply H. exact Hg.
+Qed.
+Print Assumptions c08_greenhouse.
+
 (* ---- fish *)
 Theorem c08_fish : forall n a wd wr pct m, (n <= List.length pct)%nat -> (m < n)%nat ->
   nthq (fish_series true n a wd wr pct) m ==
